@@ -308,6 +308,19 @@ theorem jw_jellium_direct_sound (tol : Rat) (l : List Nat) (spinless : Bool) (ki
     (fun u v hu hv => hevenP u ((Jel.allPoints_mem l u).2 hu) v ((Jel.allPoints_mem l v).2 hv))
     hsum hokD hokM m x
 
+/-- the same with all hypotheses as decidable flags (what the driver evaluates on every exact-table instance) -/
+theorem jw_jellium_direct_sound_of_flags (tol : Rat) (l : List Nat) (spinless : Bool) (kin pot : List Nat → GQ)
+    (const : Option GQ) (hhyp : C04J.jelliumHypOk l kin pot = true)
+    (hokD : C04J.jwJelliumDirectOk tol l spinless kin pot const = true)
+    (hokM : C04J.dualBasisModelOk tol l spinless kin pot const = true) (m x : Nat) :
+    GV.coeff (applyOp .qubit (C04J.jwJelliumDirect tol l spinless kin pot const) [m]) [x]
+      = GV.coeff (applyOp .fermion (C04J.dualBasisModel tol l spinless kin pot const) [m]) [x] := by
+  unfold C04J.jelliumHypOk at hhyp
+  simp only [Bool.and_eq_true, List.all_eq_true, beq_iff_eq] at hhyp
+  obtain ⟨he, hs⟩ := hhyp
+  exact jw_jellium_direct_sound tol l spinless kin pot const
+    (fun u hu v hv => (he u hu v hv).1) (fun u hu v hv => (he u hu v hv).2) hs hokD hokM m x
+
 /-- … hence it **equals `jordan_wigner` of the dual-basis FermionOperator** built from the same coefficient
 functions (as operators on every basis state), all three runs exact -/
 theorem jw_jellium_direct_eq_jordan_wigner (tol : Rat) (htol : tol * tol ≤ 1 / 4) (l : List Nat) (spinless : Bool)
